@@ -461,7 +461,8 @@ def consumerDown (cfg : Cfg) (s : St) (cid : Nat) (ok : Bool) : Out :=
 
 def step (cfg : Cfg) (s : St) : Ev → Out
   | .start =>
-    if s.started then (s, [.raised "RestartError"])
+    -- already started, or stopped for good (`_stopping` is never reset; `protocol = None`)
+    if s.started || s.stopping then (s, [.raised "RestartError"])
     else joinAndSync { s with started := true, startResult := none }
   | .stop => stopCall cfg s none true
   | .coordDone r =>
